@@ -75,6 +75,9 @@ HTarg(s, r) ==
 HRetain(s, r) == Out([s EXCEPT !.held[r.o] = @ + 1], IF s.alive[r.o] = "live" THEN "" ELSE "client retains an object that was disposed")
 HRelease(s, r) == Out([s EXCEPT !.held[r.o] = @ - 1], IF s.alive[r.o] = "live" THEN "" ELSE "client releases an object that was disposed")
 
+\* memory orders are informational only (x86-64 TSO: AGENT_GUIDE "Memory-order tokens"): never part of acceptance
+MoNote(r) == LET want == IF r.op = "add" THEN "relaxed" ELSE IF r.op = "sub" THEN "release" ELSE r.mo IN
+             IF r.mo = want THEN TRUE ELSE PrintT(<<"MO_DRIFT", want, r.mo>>)
 Touch(s, r) == \* no use after dispose: once the count reached -1 only the disposing thread looks at the object
     IF s.alive[r.o] = "live" THEN ""
     ELSE IF s.alive[r.o] = "disposing" /\ r.t = s.dthr[r.o] /\ r.op = "load" THEN ""
@@ -112,6 +115,7 @@ HR(s, r) ==
     LET o == r.o t == r.t IN
     IF Touch(s, r) # "" THEN Out(s, Touch(s, r))
     ELSE IF r.op = "load" \/ r.ok = 0 THEN Out(s, "")
+    ELSE IF ~MoNote(r) THEN Out(s, "")       \* never taken: MoNote is TRUE, it only prints
     ELSE IF r.op = "add" THEN
          LET n == r.new - r.old IN
          Out(AddHand([s EXCEPT !.ref[o] = r.new], o, t, n),
